@@ -341,6 +341,10 @@ def _helper_kind(fn: ast.FunctionDef) -> Optional[str]:
         return None
     if any(isinstance(n, (ast.Yield, ast.YieldFrom, ast.Await)) for n in ast.walk(fn)):
         return None
+    # a helper that calls itself is a loop, not a block of statements
+    if any(isinstance(n, ast.Call) and isinstance(n.func, ast.Attribute) and n.func.attr == fn.name and isinstance(n.func.value, ast.Name)
+           and n.func.value.id in ("self", "cls") for n in ast.walk(fn)):
+        return None
     rets = [n for n in ast.walk(fn) if isinstance(n, ast.Return)]
     if not rets:
         return "stmts"
@@ -701,6 +705,25 @@ def _append_loops(stmts: List[ast.stmt]) -> List[ast.stmt]:
     return out
 
 
+def _local_generators(fn: ast.AST) -> Dict[str, ast.GeneratorExp]:
+    """single-assignment locals bound to a generator expression whose every other occurrence is the iterable of a for statement"""
+    cached = fn.__dict__.get("_jfsa_local_generators")
+    if cached is not None:
+        return cached
+    out: Dict[str, ast.GeneratorExp] = {}
+    stores = _stores(fn)
+    for a in ast.walk(fn):
+        if isinstance(a, ast.Assign) and len(a.targets) == 1 and isinstance(a.targets[0], ast.Name) and isinstance(a.value, ast.GeneratorExp) \
+                and stores.get(a.targets[0].id) == 1:
+            name = a.targets[0].id
+            loads = [x for x in ast.walk(fn) if isinstance(x, ast.Name) and x.id == name and isinstance(x.ctx, ast.Load)]
+            iters = [f.iter for f in ast.walk(fn) if isinstance(f, ast.For) and isinstance(f.iter, ast.Name) and f.iter.id == name]
+            if loads and len(loads) == len(iters):
+                out[name] = a.value
+    fn.__dict__["_jfsa_local_generators"] = out
+    return out
+
+
 def _genexp_loops(stmts: List[ast.stmt], fn: ast.AST) -> List[ast.stmt]:
     """
     `for t in (e for a in A for b in B if c): body` (the generator written in place, or bound by the statement just before to a
@@ -720,6 +743,9 @@ def _genexp_loops(stmts: List[ast.stmt], fn: ast.AST) -> List[ast.stmt]:
                 and isinstance(nxt, ast.For) and isinstance(nxt.iter, ast.Name) and nxt.iter.id == s.targets[0].id and not nxt.orelse \
                 and sum(1 for x in ast.walk(fn) if isinstance(x, ast.Name) and x.id == s.targets[0].id) == 2:
             gen, loop, step = s.value, nxt, 2
+        elif isinstance(s, ast.For) and isinstance(s.iter, ast.Name) and not s.orelse and s.iter.id in _local_generators(fn):
+            # a generator bound to a local earlier; every use of the local is the iterable of a `for` (in exclusive branches)
+            gen, loop, step = copy.deepcopy(_local_generators(fn)[s.iter.id]), s, 1
         if isinstance(s, ast.Expr) and isinstance(s.value, ast.YieldFrom) and isinstance(s.value.value, ast.GeneratorExp):
             # `yield from (e for a in A if c)`  ->  `for a in A: if c: yield e`
             g0 = s.value.value
@@ -731,7 +757,19 @@ def _genexp_loops(stmts: List[ast.stmt], fn: ast.AST) -> List[ast.stmt]:
             out.extend(_genexp_loops(inner0, fn))
             i += 1
             continue
-        if gen is not None and not any(isinstance(x, (ast.Break,)) for b_ in loop.body for x in ast.walk(b_)):
+        if gen is not None and (len(gen.generators) == 1 or not any(isinstance(x, (ast.Break,)) for b_ in loop.body for x in ast.walk(b_))):
+            # `for t in (x for x in A if c(x))`: the generator's own variable is renamed to the loop target
+            if isinstance(loop.target, ast.Name) and isinstance(gen.elt, ast.Name) and gen.elt.id != loop.target.id \
+                    and any(isinstance(g_.target, ast.Name) and g_.target.id == gen.elt.id for g_ in gen.generators) \
+                    and not any(isinstance(x, ast.Name) and x.id == loop.target.id for g_ in gen.generators for x in ast.walk(g_)):
+                class _Ren(ast.NodeTransformer):
+                    def visit_Name(self, node: ast.Name):
+                        if node.id == old_name:
+                            node.id = new_name
+                        return node
+                old_name, new_name = gen.elt.id, loop.target.id
+                gen = copy.deepcopy(gen)
+                _Ren().visit(gen)
             same = ast.unparse(loop.target) == ast.unparse(gen.elt)
             inner: List[ast.stmt] = ([] if same else [ast.copy_location(ast.Assign(targets=[loop.target], value=gen.elt), loop)]) + loop.body
             for g in reversed(gen.generators):
@@ -781,7 +819,9 @@ def _split_tuple_assigns(stmts: List[ast.stmt]) -> List[ast.stmt]:
 
 def _strip_order(e: ast.AST) -> ast.AST:
     while True:
-        if isinstance(e, ast.Call) and isinstance(e.func, ast.Name) and e.func.id in ("list", "tuple", "reversed", "iter", "sorted") and len(e.args) == 1:
+        if isinstance(e, ast.Call) and isinstance(e.func, ast.Name) and e.func.id in ("list", "tuple", "reversed", "iter", "sorted", "deque") and len(e.args) == 1:
+            e = e.args[0]
+        elif isinstance(e, ast.Call) and isinstance(e.func, ast.Attribute) and e.func.attr == "deque" and len(e.args) == 1:
             e = e.args[0]
         elif isinstance(e, ast.Subscript) and isinstance(e.slice, ast.Slice) and e.slice.lower is None and e.slice.upper is None:
             e = e.value   # x[:] / x[::-1]: a copy, possibly reversed
@@ -826,9 +866,52 @@ def _worklists(stmts: List[ast.stmt]) -> List[ast.stmt]:
                 t = loop.test
                 test_ok = (isinstance(t, ast.Name) and t.id == w) or (isinstance(t, ast.Compare) and w in ast.unparse(t) and "len(" in ast.unparse(t))
                 first = loop.body[0]
-                pop_ok = isinstance(first, ast.Assign) and len(first.targets) == 1 and isinstance(first.targets[0], ast.Name) \
+                pop_call = isinstance(first, ast.Assign) and len(first.targets) == 1 \
                     and isinstance(first.value, ast.Call) and isinstance(first.value.func, ast.Attribute) \
                     and first.value.func.attr in ("pop", "popleft") and isinstance(first.value.func.value, ast.Name) and first.value.func.value.id == w
+                pop_ok = pop_call and isinstance(first.targets[0], ast.Name)
+                # work items that carry context: (node, <context..>) tuples -- the traversal is the same traversal of the nodes
+                tuple_items = pop_call and isinstance(first.targets[0], ast.Tuple) and first.targets[0].elts \
+                    and all(isinstance(x, ast.Name) for x in first.targets[0].elts) \
+                    and isinstance(roots, ast.List) and len(roots.elts) == 1 and isinstance(roots.elts[0], ast.Tuple) \
+                    and len(roots.elts[0].elts) == len(first.targets[0].elts)
+                if test_ok and tuple_items:
+                    c = first.targets[0].elts[0].id
+                    rest, extends = [], 0
+                    for st in loop.body[1:]:
+                        pushes = None
+                        if isinstance(st, ast.Expr) and isinstance(st.value, ast.Call) and isinstance(st.value.func, ast.Attribute) \
+                                and st.value.func.attr in ("extend", "extendleft") and isinstance(st.value.func.value, ast.Name) \
+                                and st.value.func.value.id == w and len(st.value.args) == 1:
+                            pushes = _strip_order(st.value.args[0])
+                        if pushes is not None:
+                            okp = isinstance(pushes, (ast.ListComp, ast.GeneratorExp)) and len(pushes.generators) == 1 and not pushes.generators[0].ifs \
+                                and isinstance(pushes.elt, ast.Tuple) and len(pushes.elt.elts) == len(first.targets[0].elts)
+                            if okp:
+                                g = pushes.generators[0]
+                                it = _strip_order(g.iter)
+                                if isinstance(it, ast.Call) and isinstance(it.func, ast.Name) and it.func.id == "enumerate" and it.args:
+                                    it = it.args[0]
+                                it = _strip_order(it)
+                                tnames = {x.id for x in ast.walk(g.target) if isinstance(x, ast.Name)}
+                                okp = isinstance(it, ast.Attribute) and it.attr == "children" and isinstance(it.value, ast.Name) and it.value.id == c \
+                                    and isinstance(pushes.elt.elts[0], ast.Name) and pushes.elt.elts[0].id in tnames
+                            extends = extends + 1 if okp else 99
+                            continue
+                        rest.append(st)
+                    touches_w = any(isinstance(x, ast.Name) and x.id == w for st in rest for x in ast.walk(st))
+                    if extends == 1 and not touches_w and rest and not any(isinstance(x, (ast.Break, ast.Continue)) for st in rest for x in ast.walk(st)):
+                        root0 = ast.List(elts=[roots.elts[0].elts[0]], ctx=ast.Load())
+                        call = ast.Call(func=ast.Name(id="__subtree_nodes__", ctx=ast.Load()), args=[root0], keywords=[])
+                        # the context components keep their names; their first values are bound before the loop
+                        pre = [ast.copy_location(ast.Assign(targets=[ast.Name(id=t.id, ctx=ast.Store())], value=v), s)
+                               for t, v in list(zip(first.targets[0].elts, roots.elts[0].elts))[1:]]
+                        new_loop = ast.For(target=ast.Name(id=c, ctx=ast.Store()), iter=call, body=_worklists(rest), orelse=[])
+                        out.extend(pre)
+                        out.append(ast.copy_location(new_loop, loop))
+                        ast.fix_missing_locations(out[-1])
+                        i = j + 1
+                        continue
                 if test_ok and pop_ok:
                     c = first.targets[0].id
                     rest, extends = [], 0
@@ -880,17 +963,30 @@ def _small_loops(stmts: List[ast.stmt], fn: ast.AST) -> List[ast.stmt]:
     while i < len(stmts):
         s = stmts[i]
         nxt = stmts[i + 1] if i + 1 < len(stmts) else None
+        def is_chain(e: ast.AST) -> bool:
+            return isinstance(e, ast.Call) and ast.unparse(e.func).split(".")[-1] == "chain" and not e.keywords and 2 <= len(e.args) <= 4 \
+                and all(isinstance(a_, ast.Name) or (isinstance(a_, ast.Call) and isinstance(a_.func, ast.Name) and a_.func.id in ("reversed", "list", "tuple")
+                                                     and len(a_.args) == 1 and isinstance(a_.args[0], ast.Name)) for a_ in e.args)
+        # (0) `for x in chain(A, B): body`  ->  `for it in (A, B): for x in it: body`
+        if isinstance(s, ast.For) and not s.orelse and is_chain(s.iter):
+            _COUNTER[0] += 1
+            itn = f"part@chain#{_COUNTER[0]}"
+            inner_for = ast.copy_location(ast.For(target=s.target, iter=ast.Name(id=itn, ctx=ast.Load()), body=s.body, orelse=[]), s)
+            s = ast.copy_location(ast.For(target=ast.Name(id=itn, ctx=ast.Store()), iter=ast.Tuple(elts=list(s.iter.args), ctx=ast.Load()),
+                                          body=[inner_for], orelse=[]), s)
+            ast.fix_missing_locations(s)
         # (1)
         if isinstance(s, ast.If) and s.orelse and isinstance(nxt, ast.For) and isinstance(nxt.iter, ast.Name) and not nxt.orelse:
             v = nxt.iter.id
             def last_assign(b):
                 return b and isinstance(b[-1], ast.Assign) and len(b[-1].targets) == 1 and isinstance(b[-1].targets[0], ast.Name) \
-                    and b[-1].targets[0].id == v and isinstance(b[-1].value, (ast.Tuple, ast.List))
+                    and b[-1].targets[0].id == v and (isinstance(b[-1].value, (ast.Tuple, ast.List)) or is_chain(b[-1].value))
             uses = sum(1 for x in ast.walk(fn) if isinstance(x, ast.Name) and x.id == v)
             if last_assign(s.body) and last_assign(s.orelse) and uses == 3:
                 for b in (s.body, s.orelse):
                     disp = b[-1].value
-                    b[-1:] = [ast.copy_location(ast.For(target=copy.deepcopy(nxt.target), iter=disp, body=copy.deepcopy(nxt.body), orelse=[]), nxt)]
+                    moved = ast.copy_location(ast.For(target=copy.deepcopy(nxt.target), iter=disp, body=copy.deepcopy(nxt.body), orelse=[]), nxt)
+                    b[-1:] = _small_loops([moved], fn)
                 stmts = stmts[:i + 1] + stmts[i + 2:]
                 nxt = None
         for fld in ("body", "orelse", "finalbody"):
@@ -902,7 +998,9 @@ def _small_loops(stmts: List[ast.stmt], fn: ast.AST) -> List[ast.stmt]:
                 h.body = _small_loops(h.body, fn)
         # (2)
         if isinstance(s, ast.For) and not s.orelse and isinstance(s.target, ast.Name) and isinstance(s.iter, (ast.Tuple, ast.List)) \
-                and 1 <= len(s.iter.elts) <= 4 and all(isinstance(e, ast.Name) for e in s.iter.elts) and len(s.body) <= 3 \
+                and 1 <= len(s.iter.elts) <= 4 and all(isinstance(e, ast.Name) or (isinstance(e, ast.Call) and isinstance(e.func, ast.Name)
+                                                                                  and e.func.id in ("reversed", "list", "tuple") and len(e.args) == 1
+                                                                                  and isinstance(e.args[0], ast.Name)) for e in s.iter.elts) and len(s.body) <= 3 \
                 and not any(isinstance(x, (ast.Break, ast.Continue)) for b_ in s.body for x in ast.walk(b_)) \
                 and not any(isinstance(x, ast.Name) and x.id == s.target.id and isinstance(x.ctx, ast.Store) for b_ in s.body for x in ast.walk(b_)):
             unrolled: List[ast.stmt] = []
@@ -942,6 +1040,137 @@ def _small_loops(stmts: List[ast.stmt], fn: ast.AST) -> List[ast.stmt]:
             continue
         out.append(s)
         i += 1
+    return out
+
+
+def _hoist_walrus(stmts: List[ast.stmt]) -> List[ast.stmt]:
+    """
+    `(name := value)` inside a simple statement or an `if` / `while`-less test is an assignment followed by a use of the name:
+    `return 0.0 if (c := x % L) == L else c`  ->  `c = x % L; return 0.0 if c == L else c`.  Only done when the walrus is evaluated
+    unconditionally and before any other use of the name in that statement (not inside a comprehension, lambda, the right operand of
+    and / or, or a branch of a conditional expression) and nothing with a side effect (a call) is evaluated before it.
+    """
+    def first_walrus(e: ast.AST):
+        """(the NamedExpr, whether something with a possible side effect precedes it) in evaluation order, or None"""
+        seen_call = [False]
+        found = [None]
+
+        def go(x: ast.AST, conditional: bool) -> bool:
+            if found[0] is not None:
+                return True
+            if isinstance(x, (ast.Lambda, ast.ListComp, ast.SetComp, ast.DictComp, ast.GeneratorExp)):
+                return False
+            if isinstance(x, ast.NamedExpr):
+                if conditional or seen_call[0] or not isinstance(x.target, ast.Name):
+                    found[0] = False
+                    return True
+                if any(isinstance(y, (ast.NamedExpr, ast.Call)) for y in ast.walk(x.value) if y is not x.value) or isinstance(x.value, ast.NamedExpr):
+                    pass
+                found[0] = x
+                return True
+            if isinstance(x, ast.BoolOp):
+                for i, v in enumerate(x.values):
+                    if go(v, conditional or i > 0):
+                        return True
+                return False
+            if isinstance(x, ast.IfExp):
+                return go(x.test, conditional) or go(x.body, True) or go(x.orelse, True)
+            if isinstance(x, ast.Compare):
+                if go(x.left, conditional):
+                    return True
+                for i, c in enumerate(x.comparators):
+                    if go(c, conditional or i > 0):
+                        return True
+                return False
+            if isinstance(x, ast.Call):
+                for c in [x.func] + list(x.args) + [k.value for k in x.keywords]:
+                    if go(c, conditional):
+                        return True
+                seen_call[0] = True
+                return False
+            for c in ast.iter_child_nodes(x):
+                if go(c, conditional):
+                    return True
+            return False
+        go(e, False)
+        return found[0] or None
+
+    out: List[ast.stmt] = []
+    for s in stmts:
+        for fld in ("body", "orelse", "finalbody"):
+            b = getattr(s, fld, None)
+            if isinstance(b, list) and b and isinstance(b[0], ast.stmt) and not isinstance(s, (ast.FunctionDef, ast.ClassDef)):
+                setattr(s, fld, _hoist_walrus(b))
+        if isinstance(s, ast.Try):
+            for h in s.handlers:
+                h.body = _hoist_walrus(h.body)
+        for _ in range(4):
+            host = s.value if isinstance(s, (ast.Return, ast.Assign, ast.Expr, ast.AugAssign)) and getattr(s, "value", None) is not None \
+                else s.test if isinstance(s, (ast.If, ast.Assert)) else None
+            if host is None:
+                break
+            w = first_walrus(host)
+            if w is None:
+                break
+            out.append(ast.copy_location(ast.Assign(targets=[ast.Name(id=w.target.id, ctx=ast.Store())], value=w.value), s))
+
+            class _Drop(ast.NodeTransformer):
+                def visit_NamedExpr(self, node: ast.NamedExpr):
+                    if node is w:
+                        return ast.copy_location(ast.Name(id=w.target.id, ctx=ast.Load()), node)
+                    return self.generic_visit(node)
+            if isinstance(s, (ast.If, ast.Assert)):
+                s.test = _Drop().visit(s.test)
+            else:
+                s.value = _Drop().visit(s.value)
+            ast.fix_missing_locations(out[-1])
+        out.append(s)
+    return out
+
+
+def _takewhile_loops(stmts: List[ast.stmt], fn: ast.AST) -> List[ast.stmt]:
+    """
+    `T = [e(x) for x in takewhile(P, IT)]`  (IT possibly bound just before to a local used only here)  ->
+    `T = []; for x in IT: if not P(x): break; T.append(e(x))`   -- the list that a prefix scan builds, written as the scan.
+    """
+    out: List[ast.stmt] = []
+    for s in stmts:
+        for fld in ("body", "orelse", "finalbody"):
+            b = getattr(s, fld, None)
+            if isinstance(b, list) and b and isinstance(b[0], ast.stmt) and not isinstance(s, (ast.FunctionDef, ast.ClassDef)):
+                setattr(s, fld, _takewhile_loops(b, fn))
+        if isinstance(s, ast.Assign) and len(s.targets) == 1 and isinstance(s.value, ast.ListComp) and len(s.value.generators) == 1 \
+                and not s.value.generators[0].ifs and isinstance(s.value.generators[0].target, ast.Name):
+            g = s.value.generators[0]
+            it = g.iter
+            drop = None
+            if isinstance(it, ast.Name) and out and isinstance(out[-1], ast.Assign) and len(out[-1].targets) == 1 \
+                    and isinstance(out[-1].targets[0], ast.Name) and out[-1].targets[0].id == it.id \
+                    and sum(1 for x in ast.walk(fn) if isinstance(x, ast.Name) and x.id == it.id) == 2:
+                drop, it = out[-1], out[-1].value
+            if isinstance(it, ast.Call) and ast.unparse(it.func).split(".")[-1] == "takewhile" and len(it.args) == 2 and not it.keywords:
+                pred, src_ = it.args
+                v = g.target.id
+                if isinstance(pred, ast.Lambda) and len(pred.args.args) == 1 and not pred.args.defaults:
+                    test = _rename([ast.Expr(value=pred.body)], pred.args.args[0].arg, ast.Name(id=v, ctx=ast.Load()))[0].value
+                else:
+                    test = ast.Call(func=pred, args=[ast.Name(id=v, ctx=ast.Load())], keywords=[])
+                tgt_load = copy.deepcopy(s.targets[0])
+                for x in ast.walk(tgt_load):
+                    if hasattr(x, "ctx"):
+                        x.ctx = ast.Load()
+                init = ast.copy_location(ast.Assign(targets=[s.targets[0]], value=ast.List(elts=[], ctx=ast.Load())), s)
+                stop = ast.If(test=ast.UnaryOp(op=ast.Not(), operand=test), body=[ast.Break()], orelse=[])
+                app = ast.Expr(value=ast.Call(func=ast.Attribute(value=tgt_load, attr="append", ctx=ast.Load()), args=[s.value.elt], keywords=[]))
+                loop = ast.For(target=ast.Name(id=v, ctx=ast.Store()), iter=src_, body=[stop, app], orelse=[])
+                if drop is not None:
+                    out.pop()
+                for n_ in (init, loop):
+                    ast.copy_location(n_, s)
+                    ast.fix_missing_locations(n_)
+                out.extend([init, loop])
+                continue
+        out.append(s)
     return out
 
 
@@ -1009,9 +1238,10 @@ class _ExprNorm(ast.NodeTransformer):
     than once needs a simple argument);  (lambda a: e)(x) is reduced the same way.
     """
 
-    def __init__(self, helpers: Dict[str, ast.FunctionDef]) -> None:
+    def __init__(self, helpers: Dict[str, ast.FunctionDef], partials: Optional[Dict[str, ast.Call]] = None) -> None:
         self.helpers = helpers
         self.n = 0
+        self.partials = partials or {}       # local name -> the partial(f, args..) call it is bound to (single assignment, simple args)
 
     @staticmethod
     def _simple(e: ast.AST) -> bool:
@@ -1039,6 +1269,69 @@ class _ExprNorm(ast.NodeTransformer):
         self.generic_visit(node)
         if node.keywords or any(isinstance(a, ast.Starred) for a in node.args):
             return node
+        fname = ast.unparse(node.func)
+        short = fname.split(".")[-1]
+        two = ".".join(fname.split(".")[-2:])
+
+        def fresh(tag: str) -> str:
+            self.n += 1
+            return f"item@{tag}#{self.n}"
+
+        def gen(elt: ast.AST, clauses) -> ast.AST:
+            g = ast.GeneratorExp(elt=elt, generators=[ast.comprehension(target=ast.Name(id=v_, ctx=ast.Store()), iter=it_, ifs=ifs_, is_async=0)
+                                                      for v_, it_, ifs_ in clauses])
+            return ast.fix_missing_locations(ast.copy_location(g, node))
+        # itertools / operator idioms -> comprehension forms
+        if two == "chain.from_iterable" and len(node.args) == 1 and isinstance(node.args[0], ast.GeneratorExp):
+            # chain.from_iterable(E(m) for m in X)  ->  (b for m in X for b in E(m))
+            inner_ = node.args[0]
+            b = fresh("chain")
+            g = ast.GeneratorExp(elt=ast.Name(id=b, ctx=ast.Load()), generators=list(inner_.generators) + [
+                ast.comprehension(target=ast.Name(id=b, ctx=ast.Store()), iter=inner_.elt, ifs=[], is_async=0)])
+            return ast.fix_missing_locations(ast.copy_location(g, node))
+        if two == "chain.from_iterable" and len(node.args) == 1:
+            a, b = fresh("chain"), fresh("chain")
+            return gen(ast.Name(id=b, ctx=ast.Load()), [(a, node.args[0], []), (b, ast.Name(id=a, ctx=ast.Load()), [])])
+        if short == "zip" and len(node.args) == 2 and isinstance(node.args[0], ast.Call) and ast.unparse(node.args[0].func).split(".")[-1] == "repeat" \
+                and len(node.args[0].args) == 1 and self._simple(node.args[0].args[0]):
+            b = fresh("zip")
+            return gen(ast.Tuple(elts=[node.args[0].args[0], ast.Name(id=b, ctx=ast.Load())], ctx=ast.Load()), [(b, node.args[1], [])])
+        if short in ("filter", "filterfalse") and len(node.args) == 2 and (fname in ("filter", "filterfalse") or fname.startswith("itertools.")):
+            b = fresh("filter")
+            pred = node.args[0]
+            if isinstance(pred, ast.Constant) and pred.value is None:
+                test: ast.AST = ast.Name(id=b, ctx=ast.Load())
+            else:
+                test = self.visit(ast.copy_location(ast.Call(func=pred, args=[ast.Name(id=b, ctx=ast.Load())], keywords=[]), node))
+            if short == "filterfalse":
+                test = ast.UnaryOp(op=ast.Not(), operand=test)
+            return gen(ast.Name(id=b, ctx=ast.Load()), [(b, node.args[1], [test])])
+        if short == "product" and fname in ("product", "itertools.product") and 2 <= len(node.args) <= 3:
+            names_ = [fresh("product") for _ in node.args]
+            return gen(ast.Tuple(elts=[ast.Name(id=x, ctx=ast.Load()) for x in names_], ctx=ast.Load()), [(x, a_, []) for x, a_ in zip(names_, node.args)])
+        if short == "attrgetter" and len(node.args) == 1 and isinstance(node.args[0], ast.Constant) and isinstance(node.args[0].value, str) \
+                and all(part.isidentifier() for part in node.args[0].value.split(".")):
+            body_: ast.AST = ast.Name(id="obj@attrgetter", ctx=ast.Load())
+            for part in node.args[0].value.split("."):
+                body_ = ast.Attribute(value=body_, attr=part, ctx=ast.Load())
+            lam = ast.Lambda(args=ast.arguments(posonlyargs=[], args=[ast.arg(arg="obj@attrgetter")], kwonlyargs=[], kw_defaults=[], defaults=[]), body=body_)
+            return ast.fix_missing_locations(ast.copy_location(lam, node))
+        if isinstance(node.func, ast.Call) and ast.unparse(node.func.func).split(".")[-1] == "partial" and node.func.args \
+                and not any(isinstance(a_, ast.Starred) for a_ in node.func.args):
+            # partial(f, a, k=v)(b)  ->  f(a, b, k=v)
+            inner_ = node.func
+            return ast.copy_location(ast.Call(func=inner_.args[0], args=list(inner_.args[1:]) + list(node.args),
+                                              keywords=list(inner_.keywords) + list(node.keywords)), node)
+        if isinstance(node.func, ast.Name) and node.func.id in self.partials:
+            inner_ = self.partials[node.func.id]
+            return ast.copy_location(ast.Call(func=copy.deepcopy(inner_.args[0]), args=[copy.deepcopy(a_) for a_ in inner_.args[1:]] + list(node.args),
+                                              keywords=[copy.deepcopy(k_) for k_ in inner_.keywords] + list(node.keywords)), node)
+        if isinstance(node.func, ast.Attribute) and node.func.attr == "__contains__" and len(node.args) == 1:
+            return ast.copy_location(ast.Compare(left=node.args[0], ops=[ast.In()], comparators=[node.func.value]), node)
+        if fname in ("operator.neg", "neg") and len(node.args) == 1:
+            return ast.copy_location(ast.UnaryOp(op=ast.USub(), operand=node.args[0]), node)
+        if fname == "vars" and len(node.args) == 1:
+            return ast.copy_location(ast.Attribute(value=node.args[0], attr="__dict__", ctx=ast.Load()), node)
         if isinstance(node.func, ast.Name) and node.func.id == "map" and len(node.args) == 2:
             self.n += 1
             v = f"item@map#{self.n}"
@@ -1081,15 +1374,62 @@ def normalise_function(fn: ast.FunctionDef, prog: Optional[Program] = None, modu
     """in-place normal form of one function (no helper inlining): see the module docstring, steps 2-5"""
     shadow = {a.arg for a in fn.args.args + fn.args.kwonlyargs} | {x.id for x in ast.walk(fn) if isinstance(x, ast.Name) and isinstance(x.ctx, ast.Store)}
     helpers = {k: v for k, v in (module_helpers or {}).items() if k not in shadow and v is not fn}
-    en = _ExprNorm(helpers)
+    stores_ = _stores(fn)
+    partials = {st.targets[0].id: st.value for st in ast.walk(fn) if isinstance(st, ast.Assign) and len(st.targets) == 1
+                and isinstance(st.targets[0], ast.Name) and stores_.get(st.targets[0].id) == 1 and isinstance(st.value, ast.Call)
+                and ast.unparse(st.value.func).split(".")[-1] == "partial" and st.value.args
+                and all(_ExprNorm._simple(a_) for a_ in st.value.args) and all(_ExprNorm._simple(k_.value) for k_ in st.value.keywords)}
+    en = _ExprNorm(helpers, partials)
     fn.body = [en.visit(st) for st in fn.body]
+    if partials:
+        # a partial-application local whose every call was rewritten is gone
+        loaded = {x.id for x in ast.walk(fn) if isinstance(x, ast.Name) and isinstance(x.ctx, ast.Load)}
+        dead = {k for k in partials if k not in loaded}
+
+        def prune(stmts: List[ast.stmt]) -> List[ast.stmt]:
+            keep = []
+            for st in stmts:
+                if isinstance(st, ast.Assign) and len(st.targets) == 1 and isinstance(st.targets[0], ast.Name) and st.targets[0].id in dead:
+                    continue
+                for fld in ("body", "orelse", "finalbody"):
+                    b = getattr(st, fld, None)
+                    if isinstance(b, list) and b and isinstance(b[0], ast.stmt) and not isinstance(st, (ast.FunctionDef, ast.ClassDef)):
+                        setattr(st, fld, prune(b) or [ast.copy_location(ast.Pass(), st)])
+                keep.append(st)
+            return keep
+        if dead:
+            fn.body = prune(fn.body) or fn.body
+    fn.body = _hoist_walrus(fn.body)
     fn.body = _ifexp_statements(fn.body)
     _zip_elements(fn)
+    fn.body = _takewhile_loops(fn.body, fn)
     fn.body = _fix_ifs(fn.body)
     fn.body = _genexp_loops(fn.body, fn)
     fn.body = _split_tuple_assigns(fn.body)
     fn.body = _worklists(fn.body)
     fn.body = _small_loops(fn.body, fn)
+    # generators bound to locals whose loops only appeared through the unrolling above
+    fn.__dict__.pop("_jfsa_local_generators", None)
+    if _local_generators(fn):
+        gens_ = set(_local_generators(fn))
+        fn.body = _genexp_loops(fn.body, fn)
+        fn.body = _split_tuple_assigns(fn.body)
+        still = {x.id for x in ast.walk(fn) if isinstance(x, ast.Name) and isinstance(x.ctx, ast.Load)}
+
+        def drop_defs(stmts: List[ast.stmt]) -> List[ast.stmt]:
+            keep = []
+            for st in stmts:
+                if isinstance(st, ast.Assign) and len(st.targets) == 1 and isinstance(st.targets[0], ast.Name) and st.targets[0].id in gens_ \
+                        and st.targets[0].id not in still and isinstance(st.value, ast.GeneratorExp):
+                    continue
+                for fld in ("body", "orelse", "finalbody"):
+                    b = getattr(st, fld, None)
+                    if isinstance(b, list) and b and isinstance(b[0], ast.stmt) and not isinstance(st, (ast.FunctionDef, ast.ClassDef)):
+                        setattr(st, fld, drop_defs(b) or [ast.copy_location(ast.Pass(), st)])
+                keep.append(st)
+            return keep
+        fn.body = drop_defs(fn.body) or fn.body
+    fn.__dict__.pop("_jfsa_local_generators", None)
     # nested functions that were inlined everywhere are gone
     loaded = {x.id for x in ast.walk(fn) if isinstance(x, ast.Name) and isinstance(x.ctx, ast.Load)}
     fn.body = [st for st in fn.body if not (isinstance(st, ast.FunctionDef) and st.name not in loaded)] or fn.body
